@@ -269,25 +269,27 @@ def pinned_fns():
     return _PINNED
 
 
-def view(P, f, keep=None):
+def view(P, f, keep=None, hold=None):
     """f with local helper functions inlined (cached).
     keep = regex of callees the rule wants to keep as calls: everything else that is helper-like is inlined.
     keep = None ("auto"): exactly the functions that did not exist on the pinned tree are inlined - a helper extracted by a later
     refactoring disappears from the rule's point of view, while every function the rules know by name stays a call."""
     from . import inline as I
     cache = P.__dict__.setdefault("_views", {})
-    k = (f.key, keep)
+    k = (f.key, keep, hold)
+    hold_rx = re.compile(hold) if hold else None
     if k not in cache:
         if keep is None:
             pinned = pinned_fns()
             base = I.helper_like(P, None)
-            sel = lambda g: base(g) and g.spath not in pinned
+            sel = lambda g: base(g) and g.spath not in pinned and not (hold_rx and hold_rx.search(g.spath))
         else:
             pinned = pinned_fns()
             base = I.helper_like(P, keep)
-            # new (unpinned) helpers are always looked through, also when they happen to match `keep`
+            # new (unpinned) helpers are always looked through, also when they happen to match `keep` - except those in `hold`
+            # (a function the rule discovered structurally and wants to see as a call)
             auto = I.helper_like(P, None)
-            sel = lambda g: base(g) or (auto(g) and g.spath not in pinned)
+            sel = lambda g: (base(g) or (auto(g) and g.spath not in pinned)) and not (hold_rx and hold_rx.search(g.spath))
         v = I.inline(P, f, sel)
         cache[k] = v if v.inlined else f
         if not hasattr(f, "inlined"):
